@@ -334,9 +334,11 @@ MARKER_PATTERNS = [
     ("recode.py", r"new_fn\.__globals__\[map_mangled\]\s*=", "CNMAP"),
     ("typemap.py", r"^\s*s\.add\(handler\)", "REG"),
     ("typemap.py", r"self\.all\[obj_t_tup\]\s*=", "ALL"),
-    ("typemap.py", r"self\[tup\]\s*=\s*func", "WRITE"),
-    ("typemap.py", r"self\.errors\[tup\]\s*=", "WRITE"),
+    ("typemap.py", r"^\s*target\[tup\]\s*=\s*value", "WRITE"),      # since the repair of KF-20: one loop applies the collected writes
+    ("typemap.py", r"^\s*self\[tup\]\s*=\s*func", "WRITE"),         # before it: written where they are computed
+    ("typemap.py", r"^\s*self\.errors\[tup\]\s*=", "WRITE"),
 ]
+REQUIRED_KINDS = ["DEFS", "NEWMAP", "SWAP", "FLAG", "CNMAP", "REG", "ALL", "WRITE"]
 
 _marker_tables = {}
 
@@ -373,8 +375,8 @@ def marker_table():
                 if re.search(pat, lines[a - 1]):
                     starts[(path, a)] = (kind, (a, b))
                     hit = True
-            if not hit:
-                missing.append((f, pat))
+    found = {k for (k, _) in starts.values()}
+    missing = [k for k in REQUIRED_KINDS if k not in found]
     _marker_tables[LIB] = (starts, spans, missing)
     return _marker_tables[LIB]
 
